@@ -6,8 +6,10 @@ package harness
 import (
 	"bytes"
 	"fmt"
+	"reflect"
 	"sort"
 	"strings"
+	"unsafe"
 
 	art "github.com/Clement-Jean/go-art"
 )
@@ -289,7 +291,7 @@ func takeRaw(s Subject) *rawState {
 		return nil
 	}
 	rs := &rawState{}
-	rs.recs = append(rs.recs, rawRec{head: fmt.Sprintf("tree size=%d roottag=%d", d.Size, d.RootTag)})
+	rs.recs = append(rs.recs, rawRec{head: fmt.Sprintf("tree size=%d roottag=%d header=%x", d.Size, d.RootTag, treeHeaderBytes(s))})
 	var walk func(n *art.VerifNode, depth int)
 	walk = func(n *art.VerifNode, depth int) {
 		if n == nil {
@@ -310,6 +312,23 @@ func takeRaw(s Subject) *rawState {
 	}
 	walk(d.Root, 0)
 	return rs
+}
+
+// treeHeaderBytes returns the raw memory of the tree object itself (root
+// reference, codec, size and whatever else the struct holds), so that a write to
+// any of its fields shows up. Collation trees are skipped: their struct embeds
+// the codec scratch (last key, buffer), which every query legitimately rewrites.
+func treeHeaderBytes(s Subject) []byte {
+	t := s.Tree()
+	v := reflect.ValueOf(t)
+	if v.Kind() != reflect.Pointer || v.IsNil() || v.Elem().Kind() != reflect.Struct {
+		return nil
+	}
+	if strings.Contains(v.Type().String(), "collation") {
+		return nil
+	}
+	n := v.Elem().Type().Size()
+	return clone(unsafe.Slice((*byte)(v.UnsafePointer()), n))
 }
 
 // diff describes the first difference ("" if none). With allowOneValue a
